@@ -92,7 +92,7 @@ Lemma bs_thunk_shape n ip h w t h' w' r d :
 Proof.
   destruct n as [|n]; [discriminate|]. cbn [bs]. intros H [cl G]. rewrite G in H.
   destruct (run (bs n) (t :: ip) h w (interpret (c_ast cl) (c_env cl))) as [h1 w1 [v|e] d0| |]; try discriminate.
-  - destruct v as [z|fl|b|s|s|l|dc|f|i|sp l| |t']; try (inversion H; subst; eexists; reflexivity).
+  - destruct v as [z|fl|b|s|s|l|dc|f|i|sp l| |t'|cr ci]; try (inversion H; subst; eexists; reflexivity).
     destruct (get h1 t') as [cl'|]; [|discriminate].
     destruct (c_cache cl') as [r0|]; [inversion H; subst; eexists; reflexivity|].
     destruct (existsb (Pos.eqb t') (t :: ip)); [discriminate|].
